@@ -7,6 +7,13 @@ package checks
 // (nil and empty collections identified), (2) no mutable structure shared
 // between original and copy, (3) scrubbing the copy leaves the original
 // untouched, (4) DeepCopy does not modify the original.
+//
+// Half of the cases exercise the places where cog uses these copies instead
+// (c18_dup_test.go): the duplicate_object pass run through
+// compiler.Passes.Process, the builder `duplicate` veneer and the option
+// `duplicate` veneer, in sequences of one or two steps; the same four
+// relations are asked of whatever the rule returns as the duplicate, modulo
+// the differences the rule documents.
 
 import (
 	"fmt"
@@ -31,6 +38,10 @@ import (
 type c18Case struct {
 	Type string   `json:"type"`
 	Tape []uint32 `json:"tape"`
+	// Mode "" is DeepCopy on one value of Type; the other modes apply the
+	// duplicate rule of that name Steps times (see c18_dup_test.go).
+	Mode  string    `json:"mode,omitempty"`
+	Steps []c18Step `json:"steps,omitempty"`
 }
 
 // every IR type with a DeepCopy method
@@ -151,6 +162,24 @@ func c18Build(c c18Case) (reflect.Value, *irfill.Tape, error) {
 }
 
 func c18Check(c c18Case) []vlib.Violation {
+	return c18CheckStats(c, &c18Stats{})
+}
+
+func c18CheckStats(c c18Case, st *c18Stats) []vlib.Violation {
+	switch c.Mode {
+	case c18ModeDeepCopy:
+		return c18CheckDeepCopy(c)
+	case c18ModeDupObject:
+		return c18CheckDupObject(c, st)
+	case c18ModeDupBuilder:
+		return c18CheckDupBuilder(c, st)
+	case c18ModeDupOption:
+		return c18CheckDupOption(c, st)
+	}
+	return []vlib.Violation{vlib.V("harness", "unknown mode %q", c.Mode)}
+}
+
+func c18CheckDeepCopy(c c18Case) []vlib.Violation {
 	ptr, _, err := c18Build(c)
 	if err != nil {
 		return []vlib.Violation{vlib.V("harness", "%v", err)}
@@ -226,11 +255,16 @@ func TestC18(t *testing.T) {
 	run := vlib.Begin(t, "C18")
 	defer run.Finish(t)
 	run.Describe(
-		"For each of the IR types that declare DeepCopy, a value is populated reflectively in every field (an ast.Type gets the member matching its Kind; `any` fields hold scalars, and nested []any/map[string]any where cog stores defaults/constants of that shape; hints may hold ast.Type values) from a rapid-drawn tape, depth <= 5. Checked: copy equals original field by field incl. unexported fields (nil == empty collection), no pointer/map/non-empty slice is shared, scrubbing the copy leaves the original unchanged, DeepCopy leaves its receiver unchanged. Non-trivial: the value reaches at least 3 mutable structures; distinct by (type, canonical form).",
+		"Two families of cases, all driven by a rapid-drawn tape that populates IR values reflectively in every field (an ast.Type gets the member matching its Kind; `any` fields hold scalars, and nested []any/map[string]any where cog stores defaults/constants of that shape; hints may hold ast.Type values), depth <= 5 (6 in the second family). "+
+			"(A) DeepCopy on a value of each of the IR types that declare it. Checked: copy equals original field by field incl. unexported fields (nil == empty collection), no pointer/map/non-empty slice is shared, scrubbing the copy leaves the original unchanged, DeepCopy leaves its receiver unchanged. "+
+			"(B) the places where cog uses those copies, in sequences of one or two steps (a later step may duplicate an earlier duplicate): the duplicate_object pass run through compiler.Passes.Process on 1..3 schemas of distinct packages (source: any object, or an object made for the purpose that is most of the time a struct whose own type carries nullable / default / hints / passes trail; destination: the same or another package; omit_fields: none, names of the source's fields, the same in another case, names no field bears); the builder veneer `duplicate` on 1..3 builders (selected by name or all of them; exclude_options drawn the same way); the option veneer `duplicate` on an option of a populated builder. "+
+			"Checked in (B): the object / builder / option the rule returns under the new name equals its source in every declared field except the name (self reference), a trail that may only have grown at its end, and the fields / options asked to be left out (the rest in order; a name given in another case may leave out or not); it shares no mutable structure with its source (builders: with any builder that was there before) and scrubbing it leaves the source unchanged; the rule leaves its source (objects) / its input builders unchanged; Passes.Process leaves the schemas it is given unchanged and returns nothing reachable from them. "+
+			"Non-trivial: the value reaches at least 3 mutable structures; distinct by (type or mode, canonical form, steps).",
 		"nil and empty slices/maps are identified (cog's copy routines normalise them)",
 		"an ast.Type carries exactly the member matching its Kind (what cog's constructors and parsers produce)",
 		"`any` fields documented as scalar constants (ScalarType.Value, EnumValue.Value, constraint arguments, path indices) only hold scalars",
 		"Schema.Objects is never nil (NewSchema always sets it)",
+		"in (B) the schemas have distinct, non-empty packages and every object's self reference names its own package and name (what the front ends guarantee); the duplicate's name differs from its source's",
 	)
 	if vlib.RunReplay(t, run, c18Check) {
 		return
@@ -249,7 +283,44 @@ func TestC18(t *testing.T) {
 	run.SetExtra("types_with_deepcopy_in_source_not_in_table", missing)
 
 	names := c18TypeNames()
+	modes := []string{c18ModeDeepCopy, c18ModeDeepCopy, c18ModeDeepCopy, c18ModeDeepCopy, c18ModeDupObject, c18ModeDupObject, c18ModeDupBuilder, c18ModeDupOption}
+	modeType := map[string]string{c18ModeDupObject: "Object", c18ModeDupBuilder: "Builder", c18ModeDupOption: "Option"}
+	stepGen := rapid.Custom(func(rt *rapid.T) c18Step {
+		return c18Step{
+			Src:   rapid.IntRange(0, 5).Draw(rt, "src"),
+			Dst:   rapid.IntRange(0, 2).Draw(rt, "dst"),
+			As:    rapid.SampledFrom([]string{"Dup", "dup", "other", "type", "a", "obj", "Ünï2", ""}).Draw(rt, "as"),
+			Omit:  rapid.SliceOfN(rapid.IntRange(0, 6), 0, 3).Draw(rt, "omit"),
+			Fold:  rapid.Bool().Draw(rt, "fold"),
+			Every: rapid.Bool().Draw(rt, "every"),
+		}
+	})
 	rapid.Check(t, func(rt *rapid.T) {
+		mode := rapid.SampledFrom(modes).Draw(rt, "mode")
+		if mode != c18ModeDeepCopy {
+			c := c18Case{
+				Mode:  mode,
+				Type:  modeType[mode],
+				Tape:  rapid.SliceOfN(rapid.Uint32Range(0, 9999), 0, 400).Draw(rt, "tape"),
+				Steps: rapid.SliceOfN(stepGen, 1, 2).Draw(rt, "steps"),
+			}
+			st := &c18Stats{}
+			vs := c18CheckStats(c, st)
+			key := uint64(0)
+			if st.nmut >= 3 {
+				key = vlib.HashBytes([]byte(mode), []byte(st.canon), []byte(fmt.Sprint(c.Steps)))
+			}
+			labels := []string{"mode:" + mode}
+			for _, l := range st.labels {
+				labels = append(labels, mode+":"+l)
+			}
+			run.Eval(key, labels...)
+			if st.nmut >= 6 && len(st.canon) < 2500 {
+				run.Sample(map[string]any{"mode": mode, "steps": c.Steps, "value": st.canon})
+			}
+			vlib.Fail(rt, run.Judge(c, vs))
+			return
+		}
 		c := c18Case{
 			Type: rapid.SampledFrom(names).Draw(rt, "type"),
 			Tape: rapid.SliceOfN(rapid.Uint32Range(0, 9999), 0, 400).Draw(rt, "tape"),
@@ -261,7 +332,7 @@ func TestC18(t *testing.T) {
 		if nmut >= 3 {
 			key = vlib.HashBytes([]byte(c.Type), []byte(canon))
 		}
-		labels := []string{"type:" + c.Type}
+		labels := []string{"mode:deepcopy", "type:" + c.Type}
 		if strings.Contains(canon, "(map[string]interface {})") || strings.Contains(canon, "([]interface {})") {
 			labels = append(labels, "has_composite_any")
 		}
